@@ -22,12 +22,10 @@ from __future__ import annotations
 
 import ast
 
-from ..astutil import first_stmt, last_stmt  # noqa: F401
-from ..astutil import (MUTATING_METHODS, ancestors, call_name, calls_in, guards_of, norm, stores_to,
-                       walk_no_nested)
+from ..astutil import (MUTATING_METHODS, ancestors, assigned_names, call_name, calls_in, conjuncts, guards_of,
+                       is_within, local_defs, norm, single_def_value, stmt_of, stores_to, walk_no_nested)
 from ..cfg import CFG
-from ..loader import dotted_name
-from ..resolve import closure
+from ..resolve import closure, resolve_call
 
 BASE = 'trajectories/builders/base.py'
 CTX_ATTR = 'ctx'
@@ -49,59 +47,362 @@ def _is_release(stmt):
     return False
 
 
-def _guard_says_acquired(test: ast.expr):
-    """polarity under which the test establishes that self.ctx exists, or None"""
-    t = norm(test)
-    if t in (f"'{CTX_ATTR}' in self.__dict__", f"hasattr(self, '{CTX_ATTR}')",
-             f"'{CTX_ATTR}' in vars(self)"):
-        return True
-    if t in (f"'{CTX_ATTR}' not in self.__dict__", f"not hasattr(self, '{CTX_ATTR}')"):
-        return False
+def _ctx_fact(atom: ast.expr, pol: bool, own: set):
+    """What `atom` having truth value `pol` says about the per-flight context: True = it exists,
+    False = it does not, None = nothing.  `own` = attributes the builder has without a context."""
+    if isinstance(atom, ast.Compare) and len(atom.ops) == 1:
+        l, op, r = atom.left, atom.ops[0], atom.comparators[0]
+        if isinstance(l, ast.Constant) and l.value == CTX_ATTR and norm(r) in ('self.__dict__', 'vars(self)'):
+            if isinstance(op, ast.In):
+                return pol
+            if isinstance(op, ast.NotIn):
+                return not pol
+        if isinstance(l, ast.Call) and call_name(l) == 'getattr' and len(l.args) == 3 and norm(l.args[0]) == 'self' \
+                and isinstance(l.args[1], ast.Constant) and l.args[1].value == CTX_ATTR \
+                and isinstance(l.args[2], ast.Constant) and l.args[2].value is None \
+                and isinstance(r, ast.Constant) and r.value is None:
+            if isinstance(op, ast.IsNot):
+                return pol
+            if isinstance(op, ast.Is):
+                return not pol
+    if isinstance(atom, ast.Call) and call_name(atom) == 'hasattr' and len(atom.args) == 2 \
+            and norm(atom.args[0]) == 'self' and isinstance(atom.args[1], ast.Constant) \
+            and isinstance(atom.args[1].value, str):
+        a = atom.args[1].value
+        if a == CTX_ATTR:
+            return pol
+        if a not in own and pol:
+            return True  # an attribute the builder does not have itself is reachable only through the context
     return None
+
+
+def _edge_ctx(test: ast.expr, lab: str, own: set, st):
+    facts = [_ctx_fact(a, p, own) for a, p in conjuncts(test, lab == 't')]
+    if True in facts:
+        return True
+    if False in facts:
+        return False
+    return st
+
+
+def _builder_own_attrs(prog) -> set:
+    """Attributes a builder object has without a per-flight context: methods, class attributes and what the
+    constructors store.  `self.<anything else>` is served by `Builder.__getattr__`, i.e. by `self.ctx`."""
+    own = set()
+    for c in prog.subclasses_of('Builder'):
+        for k in c.mro():
+            own |= set(k.methods)
+            own |= {n for n, v in k.class_assignments().items() if v is not None}
+            own |= {x.name for x in k.node.body if isinstance(x, ast.ClassDef)}
+            for nm in ('__init__', '__post_init__', '__new__'):
+                ini = k.methods.get(nm)
+                if ini is not None:
+                    for t, st, how in stores_to(ini.node):
+                        if isinstance(t, ast.Attribute) and norm(t.value) == 'self':
+                            own.add(t.attr)
+    return own
+
+
+def _node_exprs(n):
+    """the expressions evaluated at a CFG node"""
+    s = n.stmt
+    if s is None:
+        return []
+    if n.kind == 'stmt':
+        return [] if isinstance(s, (ast.FunctionDef, ast.AsyncFunctionDef, ast.ClassDef)) else [s]
+    if n.kind == 'test':
+        return [s.test]
+    if n.kind == 'iter':
+        return [s.iter]
+    if n.kind == 'with':
+        return [i.context_expr for i in s.items]
+    if n.kind == 'match':
+        return [s.subject]
+    if n.kind == 'case':
+        return [s.guard] if s.guard is not None else []
+    if n.kind == 'except':
+        return [s.type] if s.type is not None else []
+    return []
+
+
+def _ctx_loads(n, own):
+    """reads of context-backed builder attributes evaluated at node n (not those guarded inside the expression)"""
+    out = []
+    for e in _node_exprs(n):
+        for a in walk_no_nested(e, include_lambda=False):
+            if not (isinstance(a, ast.Attribute) and isinstance(a.value, ast.Name) and a.value.id == 'self'):
+                continue
+            if a.attr.startswith('__') and a.attr.endswith('__') or a.attr in own:
+                continue
+            is_aug = isinstance(getattr(a, '_parent', None), ast.AugAssign) and a._parent.target is a
+            if not (isinstance(a.ctx, ast.Load) or is_aug):
+                continue
+            if any(_ctx_fact(x, q, own) is True for t, pol, _ in guards_of(a, stop=n.stmt) for x, q in conjuncts(t, pol)):
+                continue
+            out.append(a)
+    return out
+
+
+def _exc_regions(stmt):
+    """enclosing exception handlers / finally blocks of a statement, innermost first:
+    list of ast.ExceptHandler | ('finally', ast.Try)"""
+    out = []
+    child = stmt
+    for a in ancestors(stmt):
+        if isinstance(a, (ast.FunctionDef, ast.AsyncFunctionDef, ast.Lambda)):
+            break
+        if isinstance(a, ast.ExceptHandler):
+            out.append(a)
+        elif isinstance(a, ast.Try) and any(child is s for s in a.finalbody):
+            out.append(('finally', a))
+        child = a
+    return out
+
+
+def _bound_inside(fn):
+    """names bound by comprehensions / lambdas (their own scopes)"""
+    out = set()
+    for x in walk_no_nested(fn):
+        if isinstance(x, ast.comprehension):
+            out |= set(assigned_names(x.target))
+        elif isinstance(x, ast.Lambda):
+            out |= {a.arg for a in x.args.posonlyargs + x.args.args + x.args.kwonlyargs}
+    return out
+
+
+def _params(fn):
+    a = fn.args
+    names = {x.arg for x in a.posonlyargs + a.args + a.kwonlyargs}
+    if a.vararg:
+        names.add(a.vararg.arg)
+    if a.kwarg:
+        names.add(a.kwarg.arg)
+    return names
+
+
+def _node_binds(n):
+    """(names bound, names unbound) by the node when it completes normally"""
+    s, binds, dels = n.stmt, set(), set()
+    if s is None:
+        return binds, dels
+    if n.kind == 'stmt':
+        if isinstance(s, ast.Assign):
+            for t in s.targets:
+                binds |= set(assigned_names(t))
+        elif isinstance(s, ast.AnnAssign) and s.value is not None:
+            binds |= set(assigned_names(s.target))
+        elif isinstance(s, (ast.Import, ast.ImportFrom)):
+            binds |= {(al.asname or al.name).split('.')[0] for al in s.names}
+        elif isinstance(s, (ast.FunctionDef, ast.AsyncFunctionDef, ast.ClassDef)):
+            binds.add(s.name)
+        elif isinstance(s, ast.Delete):
+            dels |= {t.id for t in s.targets if isinstance(t, ast.Name)}
+    elif n.kind == 'iter':
+        binds |= set(assigned_names(s.target))
+    elif n.kind == 'with':
+        for it in s.items:
+            if it.optional_vars is not None:
+                binds |= set(assigned_names(it.optional_vars))
+    elif n.kind == 'except' and s.name:
+        binds.add(s.name)
+    elif n.kind == 'case':
+        for x in ast.walk(s.pattern):
+            nm = getattr(x, 'name', None) if isinstance(x, (ast.MatchAs, ast.MatchStar)) else \
+                getattr(x, 'rest', None) if isinstance(x, ast.MatchMapping) else None
+            if nm:
+                binds.add(nm)
+    for e in _node_exprs(n):
+        for x in walk_no_nested(e, include_lambda=False):
+            if isinstance(x, ast.NamedExpr):
+                binds.add(x.target.id)
+    return binds, dels
+
+
+class FlightWrapper:
+    """Everything R1 and R4 need to know about a function that manages (or runs under) the per-flight context:
+    CFG, must-acquired state, must-bound locals, and per exception handler / finally block what can go wrong
+    while an exception is in flight."""
+
+    def __init__(self, fn: ast.AST, own: set, assume_acquired: bool = False):
+        self.fn, self.own = fn, own
+        g = self.g = CFG(fn)
+        self.acq = [n for n in g.nodes if n.kind == 'stmt' and _is_acquire(n.stmt)]
+        self.rel = [n for n in g.nodes if n.kind == 'stmt' and _is_release(n.stmt)]
+
+        def transfer(node, st):
+            if node.kind == 'stmt' and _is_acquire(node.stmt):
+                return True
+            if node.kind == 'stmt' and _is_release(node.stmt):
+                return False
+            return st
+
+        def branch(node, lab, st):
+            return _edge_ctx(node.stmt.test, lab, own, st) if node.kind == 'test' else st
+
+        self.transfer, self.branch = transfer, branch
+        self.must_ctx, _ = g.forward(bool(assume_acquired), transfer, lambda a, b: a and b, branch_transfer=branch)
+
+        # must-bound locals
+        self.locals = ({x.id for x in walk_no_nested(fn) if isinstance(x, ast.Name)
+                        and isinstance(x.ctx, (ast.Store, ast.Del))}
+                       | {h.name for h in walk_no_nested(fn) if isinstance(h, ast.ExceptHandler) and h.name}
+                       | _params(fn)) - _bound_inside(fn)
+        binds = {n.id: _node_binds(n) for n in g.nodes}
+
+        def tbind(node, st):
+            b, d = binds[node.id]
+            return (st | b) - d if (b or d) else st
+
+        self.must_bound, _ = g.forward(frozenset(_params(fn)), tbind, lambda a, b: a & b)
+
+        # reads that fail when the state they need is not there
+        self.ctx_reads = []      # (node, ast.Attribute, ok)
+        self.unbound_reads = []  # (node, ast.Name)
+        for n in g.nodes:
+            if n.id not in self.must_ctx:
+                continue  # unreachable
+            for a in _ctx_loads(n, own):
+                # a read whose AttributeError is caught right there is judged by what that handler does (R4)
+                self.ctx_reads.append((n, a, bool(self.must_ctx[n.id]) or self._attribute_error_caught(n)))
+            bound = self.must_bound.get(n.id, frozenset())
+            for e in _node_exprs(n):
+                for x in walk_no_nested(e, include_lambda=False):
+                    if isinstance(x, ast.Name) and isinstance(x.ctx, ast.Load) and x.id in self.locals \
+                            and x.id not in bound:
+                        self.unbound_reads.append((n, x))
+
+    def _attribute_error_caught(self, n) -> bool:
+        for b, lab in self.g.succ[n.id]:
+            d = self.g.nodes[b]
+            if lab == 'e' and d.kind == 'dispatch':
+                for hb, _ in self.g.succ[d.id]:
+                    h = self.g.nodes[hb]
+                    if h.kind == 'except' and (h.stmt.type is None or {x.split('.')[-1] for x in _type_names(h.stmt)}
+                                               & {'AttributeError', 'Exception', 'BaseException'}):
+                        return True
+        return False
+
+    def bad_reads_in(self, region):
+        """reads inside a handler / finally block that raise on some path into it: [(node, text, why)]"""
+        out = []
+        for n, a, ok in self.ctx_reads:
+            if not ok and any(r is region or (isinstance(r, tuple) and isinstance(region, tuple) and r[1] is region[1])
+                              for r in _exc_regions(n.stmt) + ([n.stmt] if n.kind == 'except' else [])):
+                out.append((n, f'self.{a.attr}', 'ctx'))
+        for n, x in self.unbound_reads:
+            if any(r is region or (isinstance(r, tuple) and isinstance(region, tuple) and r[1] is region[1])
+                   for r in _exc_regions(n.stmt)):
+                out.append((n, x.id, 'local'))
+        return out
+
+    def handlers(self):
+        """[(ExceptHandler, Try, nested: bool)] of this function"""
+        out = []
+        for t in walk_no_nested(self.fn):
+            if isinstance(t, ast.Try):
+                for h in t.handlers:
+                    out.append((h, t, bool(_exc_regions(t))))
+        return out
+
+    def swallows(self, h) -> bool:
+        return any(self.g.reaches(x, self.g.exit) for x in self.g.nodes_of(h))
+
+    def body_can_only_fail_locally(self, t: ast.Try, h: ast.ExceptHandler) -> bool:
+        """the protected block contains no call and no raise, and the clause catches only look-up errors: whatever
+        it handles was produced by the block's own subscripts, never by the flight machinery"""
+        if h.type is None:
+            return False
+        names = {norm(x).split('.')[-1] for x in (h.type.elts if isinstance(h.type, ast.Tuple) else [h.type])}
+        if not names <= {'KeyError', 'IndexError', 'LookupError', 'StopIteration'}:
+            return False
+        for n in self.g.nodes:
+            if n.stmt is not None and n.kind != 'except' and any(is_within(n.stmt, s) for s in t.body) \
+                    and n.why_raise & {'call', 'raise'}:
+                return False
+        return True
+
+    def raises_of(self, h):
+        """raise statements whose innermost handler is h"""
+        out = []
+        for r in walk_no_nested(h):
+            if isinstance(r, ast.Raise):
+                inner = next((a for a in ancestors(r) if isinstance(a, ast.ExceptHandler)), None)
+                if inner is h:
+                    out.append(r)
+        return out
+
+    def finally_escapes(self, t: ast.Try):
+        """return / break / continue inside a finally block: they discard the exception in flight"""
+        out = []
+        for s in t.finalbody:
+            for x in walk_no_nested(s):
+                if isinstance(x, ast.Return):
+                    out.append(x)
+                elif isinstance(x, (ast.Break, ast.Continue)):
+                    lp = next((a for a in ancestors(x) if isinstance(a, (ast.For, ast.While, ast.AsyncFor))), None)
+                    if lp is None or not any(is_within(lp, f) for f in t.finalbody):
+                        out.append(x)
+        return out
+
+
+def _where(n):
+    return f' in finally copy {n.fin}' if n.fin else ''
 
 
 def rule_pairing(ctx, m):
     fly = m.func('Builder.fly')
-    g = CFG(fly.node)
-    acq = [n for n in g.nodes if n.kind == 'stmt' and _is_acquire(n.stmt)]
-    rel = [n for n in g.nodes if n.kind == 'stmt' and _is_release(n.stmt)]
+    own = _builder_own_attrs(ctx.prog)
+    fw = FlightWrapper(fly.node, own)
+    g, acq, rel = fw.g, fw.acq, fw.rel
     ctx.floor('C17-R1', len(acq), 1, 'context acquire sites in fly')
     ctx.floor('C17-R1/release', len(rel), 1, 'context release sites in fly')
+    ins = fw.must_ctx
 
-    # must-acquired
-    def transfer(node, st):
-        if node.kind == 'stmt' and _is_acquire(node.stmt):
-            return True
-        if node.kind == 'stmt' and _is_release(node.stmt):
-            return False
-        return st
+    def avoid_path(target):
+        # an exceptional path from entry to the node that avoids every completed acquire: preferably the one on which
+        # the acquire itself fails
+        acq_ids = {a.id for a in acq}
+        no_acq = lambda a, b, lab: not (a in acq_ids and lab != 'e')  # noqa: E731
+        p = None
+        for a in acq:
+            p1 = g.find_path(g.entry, a.id, edge_ok=no_acq)
+            p2 = g.find_path(a.id, target, edge_ok=no_acq)
+            if p1 and p2:
+                p = p1 + p2[1:]
+                break
+        p = p or g.find_path(g.entry, target, edge_ok=no_acq)
+        if not p:
+            return []
+        p = [x for x in p if not (g.nodes[x].kind == 'stmt' and isinstance(g.nodes[x].stmt, ast.Expr)
+                                  and isinstance(g.nodes[x].stmt.value, ast.Constant))]
+        return [f'L{g.nodes[x].line}: {g.nodes[x].text()[:80]}' + (' [exceptional edge follows]'
+                if i + 1 < len(p) and ('e' in [l for t, l in g.succ[x] if t == p[i + 1]]) else '')
+                for i, x in enumerate(p) if g.nodes[x].stmt is not None]
 
-    def branch(node, lab, st):
-        if node.kind == 'test':
-            pol = _guard_says_acquired(node.stmt.test)
-            if pol is not None:
-                return (lab == 't') == pol
-        return st
-
-    ins, _ = g.forward(False, transfer, lambda a, b: a and b, branch_transfer=branch)
     for r in rel:
         ok = ins.get(r.id, True)
-        path = []
-        if not ok:
-            # an exceptional path from entry to the release that avoids every acquire
-            acq_ids = {a.id for a in acq}
-            p = g.find_path(g.entry, r.id, edge_ok=lambda a, b, lab: not (a in acq_ids and lab != 'e'))
-            if p:
-                path = [f'L{g.nodes[x].line}: {g.nodes[x].text()[:80]}' + (' [exceptional edge follows]'
-                        if i + 1 < len(p) and ('e' in [l for t, l in g.succ[x] if t == p[i + 1]]) else '')
-                        for i, x in enumerate(p) if g.nodes[x].stmt is not None]
         ctx.ob('C17-R1', fly, f'release `{norm(r.stmt)}` in finally copy {r.fin or ("body",)}', ok,
                'the context is definitely acquired (or the release is guarded) on every path reaching it'
                if ok else
                ('the release is reachable on an exceptional path on which the acquire never completed '
                 '(the context constructor itself raised: unknown airport, airport above cruise level, '
                 'missing weather): `del self.ctx` raises AttributeError and hides the reason'),
-               line=r.line, path=path)
+               line=r.line, path=[] if ok else avoid_path(r.id))
+
+    # every use of context-backed state needs the context: `self.<attr>` for an attribute the builder does not have
+    # itself goes through __getattr__ to self.ctx and raises AttributeError when there is none
+    ctx.stats['fly.context_backed_reads'] = len(fw.ctx_reads)
+    ctx.floor('C17-R1/reads', len(fw.ctx_reads), 1, 'reads of context-backed attributes in fly')
+    for n, a, ok in fw.ctx_reads:
+        inexc = bool(_exc_regions(n.stmt)) or n.kind == 'except'
+        ctx.ob('C17-R1', fly, f'read of context-backed self.{a.attr} at `{n.text()[:50]}`{_where(n)}', ok,
+               'the context is definitely acquired (or the read is guarded) on every path reaching it' if ok else
+               (f'self.{a.attr} is not an attribute of the builder: it is forwarded to the per-flight context, which '
+                'does not exist on the path on which the context constructor itself rejected the mission (unknown '
+                'airport, airport above cruise level, missing weather)'
+                + (': evaluating this ' + ('handler' if inexc else 'statement') + ' raises AttributeError'
+                   + (' and that unrelated error replaces the rejection reason' if inexc else ''))),
+               line=a.lineno, path=[] if ok else avoid_path(n.id))
 
     # may-acquired at exits
     def real_exc(a, b, lab):
@@ -109,7 +410,7 @@ def rule_pairing(ctx, m):
         na = g.nodes[a]
         return lab != 'e' or na.kind in ('dispatch', 'join', 'finally') or bool(na.why_raise & {'call', 'raise'})
 
-    ins2, _ = g.forward(False, transfer, lambda a, b: a or b, branch_transfer=branch, edge_ok=real_exc)
+    ins2, _ = g.forward(False, fw.transfer, lambda a, b: a or b, branch_transfer=fw.branch, edge_ok=real_exc)
     for ex, what in ((g.exit, 'normal return'), (g.raise_exit, 'exceptional exit')):
         if ex in ins2:
             ok = not ins2[ex]
@@ -117,8 +418,7 @@ def rule_pairing(ctx, m):
                    'no path leaves fly with the context still attached' if ok else
                    f'some {what} leaves the per-flight context on the builder: the next flight starts '
                    'with stale state', line=fly.node.lineno)
-    # the acquire must be the first fallible thing after entering the try, or be outside: informational
-    return g
+    return fw
 
 
 def _ctx_attrs(prog, builder_cls):
@@ -251,82 +551,435 @@ def _inside(n, anc):
     return any(a is anc for a in ancestors(n))
 
 
+ABS_FUNCS = {'abs', 'np.abs', 'numpy.abs', 'np.absolute', 'numpy.absolute', 'np.fabs', 'numpy.fabs', 'math.fabs'}
+TOL_OPTION = 'mass_iter_reltol'
+_FLIP = {ast.Lt: ast.Gt, ast.LtE: ast.GtE, ast.Gt: ast.Lt, ast.GtE: ast.LtE}
+_NEG = {ast.Lt: ast.GtE, ast.LtE: ast.Gt, ast.Gt: ast.LtE, ast.GtE: ast.Lt}
+
+
+class _Gate:
+    """Recognise what a test says about the residual of the mass iteration: |residual| < tolerance ('gate'),
+    only residual < tolerance ('upper'), only residual > -tolerance ('lower'), the negation of a >= test, which a
+    NaN residual also passes ('gate-nan'), or an unclassified statement about the residual ('other')."""
+
+    def __init__(self, fn, res_names):
+        self.fn, self.res = fn, set(res_names)
+        self.loose = []   # tolerance expressions wider than the requested one
+
+    def _resolve(self, e, fresh):
+        seen = 0
+        while isinstance(e, ast.Name) and e.id in fresh and seen < 5:
+            d = single_def_value(self.fn, e.id)
+            if d is None:
+                break
+            e, seen = d, seen + 1
+        return e
+
+    def _scale(self, e):
+        """k if e is k * <requested tolerance> for a positive numeric constant k, else None"""
+        seen = 0
+        while isinstance(e, ast.Name) and seen < 5:
+            d = single_def_value(self.fn, e.id)
+            if d is None:
+                return None
+            e, seen = d, seen + 1
+        if isinstance(e, ast.Attribute) and e.attr == TOL_OPTION:
+            return 1.0
+        if isinstance(e, ast.BinOp) and isinstance(e.op, (ast.Mult, ast.Div)):
+            for a, b, both in ((e.left, e.right, True), (e.right, e.left, isinstance(e.op, ast.Mult))):
+                c = b.value if isinstance(b, ast.Constant) and isinstance(b.value, (int, float)) \
+                    and not isinstance(b.value, bool) else None
+                k = self._scale(a) if both and c is not None and c > 0 else None
+                if k is not None:
+                    return k * c if isinstance(e.op, ast.Mult) else k / c
+        return None
+
+    def _tol(self, e):
+        k = self._scale(e)
+        if k is not None and k > 1:
+            self.loose.append(e)
+        return k is not None and k <= 1
+
+    def _neg_tol(self, e):
+        return isinstance(e, ast.UnaryOp) and isinstance(e.op, ast.USub) and self._tol(e.operand)
+
+    def _is_res(self, e, fresh):
+        e = self._resolve(e, fresh)
+        return isinstance(e, ast.Name) and e.id in self.res
+
+    def _is_mag(self, e, fresh):
+        e = self._resolve(e, fresh)
+        return isinstance(e, ast.Call) and call_name(e) in ABS_FUNCS and len(e.args) == 1 and not e.keywords \
+            and self._is_res(e.args[0], fresh)
+
+    def mentions(self, e, fresh):
+        return any(isinstance(x, ast.Name) and (x.id in self.res or x.id in fresh) for x in ast.walk(e))
+
+    def atom(self, e, pol, fresh):
+        if not self.mentions(e, fresh):
+            return None
+        if isinstance(e, ast.Compare) and len(e.ops) == 2 and pol:
+            a, b, c = e.left, e.comparators[0], e.comparators[1]
+            o1, o2 = type(e.ops[0]), type(e.ops[1])
+            if o1 in (ast.Lt, ast.LtE) and o2 in (ast.Lt, ast.LtE) and self._neg_tol(a) and self._is_res(b, fresh) \
+                    and self._tol(c):
+                return 'gate'
+            if o1 in (ast.Gt, ast.GtE) and o2 in (ast.Gt, ast.GtE) and self._tol(a) and self._is_res(b, fresh) \
+                    and self._neg_tol(c):
+                return 'gate'
+            return 'other'
+        if isinstance(e, ast.Compare) and len(e.ops) == 1 and type(e.ops[0]) in _FLIP:
+            l, op, r = e.left, type(e.ops[0]), e.comparators[0]
+            if self._tol(l) or self._neg_tol(l):
+                l, r, op = r, l, _FLIP[op]
+            neg = not pol
+            if neg:
+                op = _NEG[op]
+            kind = None
+            recognised = (self._tol(r) and (self._is_mag(l, fresh) or self._is_res(l, fresh))) \
+                or (self._neg_tol(r) and self._is_res(l, fresh))
+            if not recognised:
+                return 'other'
+            if self._tol(r) and op in (ast.Lt, ast.LtE):
+                kind = 'gate' if self._is_mag(l, fresh) else 'upper'
+            elif self._neg_tol(r) and op in (ast.Gt, ast.GtE):
+                kind = 'lower'
+            if kind is None:
+                return None  # this edge says the residual is *outside* the bound
+            # a negated comparison is also true for a NaN residual
+            return kind + '-nan' if neg else kind
+        return 'other'
+
+    def facts(self, test, pol, fresh):
+        """kinds established on the edge on which `test` has truth value `pol`"""
+        kinds = [self.atom(a, p, fresh) for a, p in conjuncts(test, pol)]
+        kinds = {k for k in kinds if k}
+        if {'upper', 'lower'} <= kinds:
+            kinds.add('gate')
+        if {'upper-nan', 'lower-nan'} <= kinds or {'upper', 'lower-nan'} <= kinds or {'upper-nan', 'lower'} <= kinds:
+            kinds.add('gate-nan')
+        return kinds
+
+
+def _close(props, ok):
+    s = set(props)
+    if 'F' in s:
+        s.add('imp')
+    if 'T' in s:
+        s.add('nimp')
+    if ok:
+        s |= {'imp', 'nimp'}
+    return frozenset(s)
+
+
 def rule_convergence(ctx, m):
+    """R3 on the CFG of `_iterate_mass`, by must-dataflow.  State: ok = |residual| < tolerance has been established
+    for the current (trajectory, residual) pair; same = both come from one `_fly_iteration()` call; per boolean flag
+    variable whether it is True, False, or implies ok (`flag => ok`, `not flag => ok`); the locals derived from the
+    current residual.  A new iteration resets ok and the implications.  Every return must be reached with ok."""
+    prog = ctx.prog
     it = m.func('Builder._iterate_mass')
-    g = CFG(it.node)
-    dom = g.dominators(edge_ok=lambda a, b, lab: lab != 'e')
-    rets = [n for n in g.nodes if n.kind == 'stmt' and isinstance(n.stmt, ast.Return)]
-    flag_sets = [n for n in g.nodes if n.kind == 'stmt' and isinstance(n.stmt, ast.Assign)
-                 and norm(n.stmt.targets[0]) == 'mass_converged']
-    trues = [n for n in flag_sets if isinstance(n.stmt.value, ast.Constant) and n.stmt.value.value is True]
-    ctx.floor('C17-R3', len(trues), 1, 'convergence flag sets')
-    gate = None
-    for n in g.nodes:
-        if n.kind == 'stmt' and isinstance(n.stmt, ast.Raise):
-            gs = guards_of(n.stmt)
-            if any(norm(t) == 'not mass_converged' and pol for t, pol, _ in gs):
-                gate = [x for _, _, o in gs for x in g.nodes_of(o)]
-    for r in rets:
-        ok = gate is not None and any(t in dom[r.id] for t in gate)
-        ctx.ob('C17-R3', it, f'`{norm(r.stmt)}` only after the non-convergence refusal', ok,
-               '`if not mass_converged: raise` dominates the return' if ok else
-               'a trajectory can be returned without the convergence test', line=r.line)
-    for n in trues:
-        gs = guards_of(n.stmt)
-        tests = [t for t, pol, _ in gs if pol and not isinstance(_owner(t), ast.While)]
-        good = False
-        detail = 'flag set under ' + str([norm(t) for t, _, _ in gs])
-        for t in tests:
-            if isinstance(t, ast.Compare) and len(t.ops) == 1 and isinstance(t.ops[0], (ast.Lt, ast.LtE)):
-                lhs, rhs = t.left, t.comparators[0]
-                if isinstance(lhs, ast.Call) and call_name(lhs) in ('abs', 'np.abs', 'math.fabs') \
-                        and norm(lhs.args[0]) == 'mass_res' and 'mass_iter_reltol' in norm(rhs):
-                    good = True
-                elif norm(lhs) == 'mass_res' or 'mass_res' in norm(lhs):
-                    detail = (f'`{norm(t)}` compares the signed residual: any negative residual (fuel '
-                              'deficit) counts as converged')
-        ctx.ob('C17-R3', it, 'converged only if |residual| < tolerance', good,
-               'abs(mass_res) < options.mass_iter_reltol' if good else detail, line=n.line)
-    pair_defs = [st for t, st, how in stores_to(it.node) if isinstance(t, ast.Name) and t.id in ('traj', 'mass_res')]
-    ok = bool(pair_defs) and all(
-        isinstance(st, ast.Assign) and isinstance(st.targets[0], ast.Tuple)
-        and [norm(e) for e in st.targets[0].elts] == ['traj', 'mass_res']
-        and isinstance(st.value, ast.Call) and call_name(st.value) == 'self._fly_iteration'
-        for st in pair_defs)
-    ctx.ob('C17-R3', it, 'trajectory and residual always come from the same iteration', ok,
-           f'{len(pair_defs) // 2} joint assignments from _fly_iteration()' if ok else
-           'traj and mass_res can come from different iterations')
-    # residual definition in _fly_iteration
     fi = m.func('Builder._fly_iteration')
+    fn = it.node
+    g = CFG(fn)
+
+    def is_iteration(e):
+        if not isinstance(e, ast.Call):
+            return False
+        r = resolve_call(prog, it, e)
+        if r is not None:
+            return r.name == fi.name
+        return isinstance(e.func, ast.Attribute) and e.func.attr == fi.name
+
+    # the (trajectory, residual) pairs
+    calls = [c for c in calls_in(fn) if is_iteration(c)]
+    ctx.floor('C17-R3', len(calls), 1, 'calls of _fly_iteration in _iterate_mass')
+    pair_of = {}   # id(stmt) -> (traj name | None, residual name | None)
+    for c in calls:
+        st = stmt_of(c)
+        if not (isinstance(st, ast.Assign) and st.value is c and len(st.targets) == 1
+                and isinstance(st.targets[0], (ast.Tuple, ast.List)) and len(st.targets[0].elts) == 2
+                and all(isinstance(e, ast.Name) for e in st.targets[0].elts)):
+            ctx.undecided('C17-R3', it, norm(st)[:70], 'the result of _fly_iteration() is not unpacked into '
+                          '(trajectory, residual) at the call')
+        a, b = (e.id for e in st.targets[0].elts)
+        pair_of[id(st)] = (None if a == '_' else a, None if b == '_' else b)
+    tnames = {a for a, b in pair_of.values() if a}
+    rnames = {b for a, b in pair_of.values() if b}
+    if len(tnames) != 1 or len(rnames) != 1 or tnames & rnames:
+        ctx.undecided('C17-R3', it, f'trajectory {sorted(tnames)} residual {sorted(rnames)}',
+                      'more than one variable holds the trajectory or the residual')
+    tvar, rvar = next(iter(tnames)), next(iter(rnames))
+    # the residual is the second component of what _fly_iteration returns
+    rets_fi = [r for r in walk_no_nested(fi.node) if isinstance(r, ast.Return)]
+    if not rets_fi or not all(isinstance(r.value, ast.Tuple) and len(r.value.elts) == 2 for r in rets_fi):
+        ctx.undecided('C17-R3', fi, 'return', '_fly_iteration does not return a (trajectory, residual) pair')
+
+    # flag variables: locals only ever bound to booleans
+    def boolish(v):
+        return isinstance(v, ast.Constant) and isinstance(v.value, bool) or isinstance(v, (ast.Compare, ast.BoolOp)) \
+            or isinstance(v, ast.UnaryOp) and isinstance(v.op, ast.Not)
+
+    flags = set()
+    for x in walk_no_nested(fn):
+        if isinstance(x, ast.Name) and isinstance(x.ctx, ast.Store) and x.id not in (tvar, rvar):
+            ds = local_defs(fn, x.id)
+            if ds and all(isinstance(d, ast.Assign) and len(d.targets) == 1 and isinstance(d.targets[0], ast.Name)
+                          and boolish(d.value) for d in ds):
+                flags.add(x.id)
+    gate = _Gate(fn, {rvar})
+    seen_kinds = {}   # kind -> [line]
+    foreign = []      # stores to the pair that are not a joint assignment from one iteration
+
+    # state: (ok, same, flags: frozenset((name, prop)), fresh: frozenset(name))
+    def props(st, f):
+        return {p for n, p in st[2] if n == f}
+
+    def with_flags(st, ok, upd=None, keep_impl=True):
+        out = set()
+        for f in flags:
+            p = upd[f] if upd and f in upd else props(st, f)
+            if not keep_impl:
+                p = p & {'T', 'F'} if not (upd and f in upd) else p
+            out |= {(f, q) for q in _close(p, ok)}
+        return frozenset(out)
+
+    def transfer(node, st):
+        ok, same, fl, fresh = st
+        s = node.stmt
+        if node.kind == 'iter':
+            if set(assigned_names(s.target)) & {tvar, rvar}:
+                foreign.append(s)
+                return (False, False, with_flags(st, False, keep_impl=False), frozenset())
+            return st
+        if node.kind != 'stmt':
+            return st
+        if id(s) in pair_of:
+            a, b = pair_of[id(s)]
+            joint = a is not None and b is not None
+            if not joint:
+                foreign.append(s)
+            return (False, joint, with_flags(st, False, keep_impl=False), frozenset())
+        bound = set()
+        if isinstance(s, ast.Assign):
+            for t in s.targets:
+                bound |= set(assigned_names(t))
+        elif isinstance(s, (ast.AnnAssign, ast.AugAssign)):
+            bound |= set(assigned_names(s.target))
+        elif isinstance(s, ast.Delete):
+            bound |= {t.id for t in s.targets if isinstance(t, ast.Name)}
+        for x in walk_no_nested(s):
+            if isinstance(x, ast.NamedExpr):
+                bound.add(x.target.id)
+        if bound & {tvar, rvar}:
+            foreign.append(s)
+            return (False, False, with_flags(st, False, keep_impl=False), frozenset())
+        if isinstance(s, ast.Assign) and len(s.targets) == 1 and isinstance(s.targets[0], ast.Name):
+            x, v = s.targets[0].id, s.value
+            if x in flags:
+                if isinstance(v, ast.Constant):
+                    p = {'T'} if v.value else {'F'}
+                else:
+                    kt, kf = gate.facts(v, True, fresh), gate.facts(v, False, fresh)
+                    for k in kt | kf:
+                        seen_kinds.setdefault(k, []).append(s.lineno)
+                    p = set()
+                    if same and 'gate' in kt:
+                        p.add('imp')
+                    if same and 'gate' in kf:
+                        p.add('nimp')
+                return (ok, same, with_flags(st, ok, {x: p}), fresh)
+            if gate.mentions(v, fresh) and len(local_defs(fn, x)) == 1:
+                return (ok, same, fl, fresh | {x})
+        if bound & fresh:
+            return (ok, same, fl, fresh - bound)
+        return st
+
+    def branch(node, lab, st):
+        if node.kind != 'test':
+            return st
+        ok, same, fl, fresh = st
+        pol = lab == 't'
+        kinds = gate.facts(node.stmt.test, pol, fresh)
+        for k in kinds:
+            seen_kinds.setdefault(k, []).append(node.line)
+        if 'gate' in kinds and same:
+            ok = True
+        upd = {}
+        for a, p in conjuncts(node.stmt.test, pol):
+            if isinstance(a, ast.Name) and a.id in flags:
+                pr = props(st, a.id)
+                if same and ('imp' if p else 'nimp') in pr:
+                    ok = True
+                upd[a.id] = {'T'} if p else {'F'}
+        return (ok, same, with_flags(st, ok, upd), fresh)
+
+    def join(a, b):
+        ok = a[0] and b[0]
+        fa = {f: _close(props(a, f), a[0]) for f in flags}
+        fb = {f: _close(props(b, f), b[0]) for f in flags}
+        return (ok, a[1] and b[1], frozenset((f, p) for f in flags for p in (fa[f] & fb[f])), a[3] & b[3])
+
+    init = (False, False, frozenset(), frozenset())
+    ins, _ = g.forward(init, transfer, join, branch_transfer=branch, edge_ok=lambda a, b, lab: lab != 'e')
+
+    rets = [n for n in g.nodes if n.kind == 'stmt' and isinstance(n.stmt, ast.Return) and n.id in ins]
+    tests = sum(len(v) for k, v in seen_kinds.items())
+    ctx.floor('C17-R3/returns', len(rets), 1, 'returns of _iterate_mass')
+    ctx.floor('C17-R3/tests', tests, 1, 'tests of the residual in _iterate_mass')
+    ctx.stats['_iterate_mass.residual_tests'] = {k: sorted(set(v)) for k, v in seen_kinds.items()}
+    ctx.stats['_iterate_mass.flags'] = sorted(flags)
+    for r in rets:
+        ok, same, fl, fresh = ins[r.id]
+        v = r.stmt.value
+        if v is None or isinstance(v, ast.Constant):
+            ctx.ob('C17-R3', it, f'`{norm(r.stmt)}` returns the trajectory', False,
+                   'the mass iteration ends without a trajectory and without reporting non-convergence', line=r.line)
+            continue
+        if not (isinstance(v, ast.Name) and v.id == tvar):
+            ctx.undecided('C17-R3', it, norm(r.stmt), f'the returned value is not the trajectory variable `{tvar}`')
+        good = ok and same
+        if good:
+            why = f'abs({rvar}) < options.{TOL_OPTION} is established for the iteration that produced `{tvar}` ' \
+                  'on every path to this return'
+        elif not same:
+            why = (f'`{tvar}` and `{rvar}` can come from different iterations here: the residual that was tested is '
+                   'not the residual of the trajectory that is returned')
+        elif 'upper' in seen_kinds and 'lower' not in seen_kinds:
+            why = (f'the test at line {seen_kinds["upper"][0]} compares the signed residual: any negative residual '
+                   '(fuel deficit) counts as converged')
+        elif 'gate-nan' in seen_kinds or 'upper-nan' in seen_kinds:
+            ln = (seen_kinds.get('gate-nan') or seen_kinds.get('upper-nan'))[0]
+            why = (f'convergence is concluded from the *failure* of a >= test (line {ln}): a NaN residual fails it too '
+                   'and the trajectory is returned as converged')
+        elif gate.loose:
+            why = (f'the residual is tested against `{norm(gate.loose[0])}` (line {gate.loose[0].lineno}), which is '
+                   f'wider than the requested options.{TOL_OPTION}')
+        elif 'other' in seen_kinds:
+            ctx.undecided('C17-R3', it, norm(r.stmt), f'the residual is tested at line {seen_kinds["other"][0]} in a '
+                          'form that is not recognised as |residual| < tolerance')
+        else:
+            why = 'a trajectory can be returned without the convergence test having succeeded for it'
+        ctx.ob('C17-R3', it, f'`{norm(r.stmt)}` only with |residual| < tolerance established', good, why, line=r.line)
+    okp = not foreign
+    ctx.ob('C17-R3', it, 'trajectory and residual always come from the same iteration', okp,
+           f'{len(pair_of)} joint assignments from _fly_iteration()' if okp else
+           f'`{norm(foreign[0])[:60]}` rebinds one of ({tvar}, {rvar}) without the other: they can come from '
+           'different iterations', line=(foreign[0].lineno if foreign else fn.lineno))
+    # non-convergence is reported: the function has a way out that is not a return
+    raises = [n for n in g.nodes if n.kind == 'stmt' and isinstance(n.stmt, ast.Raise) and n.id in ins]
+    ctx.ob('C17-R3', it, 'non-convergence is reported by an exception', bool(raises),
+           f'{len(raises)} raise statement(s) on the paths on which no residual passed the test' if raises else
+           'no raise is reachable: the iteration budget can run out silently', nontrivial=False)
+    # residual definition in _fly_iteration
     mr = [st for t, st, how in stores_to(fi.node) if isinstance(t, ast.Name) and t.id == 'mass_residual']
     ok = len(mr) == 1 and norm(mr[0].value) == '(self.total_fuel_mass - fuelBurned) / self.total_fuel_mass'
     fb = [st for t, st, how in stores_to(fi.node) if isinstance(t, ast.Name) and t.id == 'fuelBurned']
     ok = ok and len(fb) == 1 and norm(fb[0].value) == 'self.starting_mass - traj.aircraft_mass[-1]'
+    ok = ok and all(norm(r.value.elts[1]) == 'mass_residual' for r in rets_fi)
     ctx.ob('C17-R3', fi, 'residual = (trip fuel − fuel burned) / trip fuel', ok,
            'leftover trip fuel relative to trip fuel' if ok else 'residual definition changed', nontrivial=False)
 
 
-def _owner(t):
-    return getattr(t, '_parent', None)
+def _type_names(h):
+    if h.type is None:
+        return ['<bare>']
+    return [norm(x) for x in (h.type.elts if isinstance(h.type, ast.Tuple) else [h.type])]
 
 
-def rule_handlers(ctx, m):
+def _handler_obligations(ctx, where, fw, rule='C17-R4'):
+    """R4 for one function: returns the number of handlers / finally blocks examined"""
+    n = 0
+    for h, t, nested in fw.handlers():
+        n += 1
+        what = f'except {", ".join(_type_names(h)) if h.type else ""}'.strip()
+        if fw.body_can_only_fail_locally(t, h):
+            ctx.ob(rule, where, f'{what} re-raises unchanged', True,
+                   'the protected block has no call and no raise and only look-up errors are caught: nothing of the '
+                   'flight can be intercepted here', line=h.lineno, nontrivial=False)
+            continue
+        bad = []
+        if fw.swallows(h):
+            bad.append('a path through the handler continues normally: a rejection reason can be swallowed here')
+        for r in fw.raises_of(h):
+            if r.exc is None:
+                if nested:
+                    bad.append(f'the bare `raise` at line {r.lineno} sits in a handler nested inside another handler / '
+                               'finally block: it re-raises the secondary error, not the rejection')
+            elif not (isinstance(r.exc, ast.Name) and r.exc.id == h.name and r.cause is None):
+                bad.append(f'`{norm(r)[:60]}` replaces the caught exception: a rejection reason can be rewrapped here')
+        for node, txt, kind in fw.bad_reads_in(h):
+            if kind == 'ctx':
+                bad.append(f'evaluating `{node.text()[:60]}` reads {txt}, which is forwarded to the per-flight context; '
+                           'on the path on which the context constructor rejected the mission there is no context, so '
+                           'the handler itself raises AttributeError before it re-raises and the rejection reason is '
+                           'replaced by an unrelated internal error')
+            else:
+                bad.append(f'evaluating `{node.text()[:60]}` reads local `{txt}`, which is not bound on every path into '
+                           'the handler: the handler itself raises UnboundLocalError before it re-raises')
+        ctx.ob(rule, where, f'{what} re-raises unchanged', not bad,
+               'every path through the handler ends in re-raising the caught exception, and the handler reads only '
+               'state that exists on every path into it' if not bad else '; '.join(dict.fromkeys(bad)), line=h.lineno)
+    for t in walk_no_nested(fw.fn):
+        if isinstance(t, ast.Try) and t.finalbody:
+            n += 1
+            bad = [f'`{norm(x)}` at line {x.lineno} inside `finally` discards the exception in flight'
+                   for x in fw.finally_escapes(t)]
+            for node, txt, kind in fw.bad_reads_in(('finally', t)):
+                if 'exc' not in node.fin:
+                    continue
+                bad.append(f'`{node.text()[:60]}` reads {txt}, which does not exist on every exceptional path into the '
+                           'finally block: the clean-up raises and replaces the rejection reason')
+            ctx.ob(rule, where, f'finally block of the try at line {t.lineno} lets the exception through', not bad,
+                   'no return/break/continue, and it reads only state that exists on every path into it'
+                   if not bad else '; '.join(dict.fromkeys(bad)), line=t.finalbody[0].lineno)
+    return n
+
+
+_CONTROL_SRC = '''
+def fly(self, mission):
+    try:
+        self.ctx = self.CONTEXT_CLASS(mission)
+        traj = self.run()
+        return traj
+    except Exception as exc:
+        exc.add_note(f'{self.mission.label}: {traj}')
+        raise
+    finally:
+        if 'ctx' in self.__dict__:
+            del self.ctx
+'''
+
+
+def rule_handlers(ctx, m, fly_fw=None):
     prog = ctx.prog
+    own = _builder_own_attrs(prog)
     builders = [c for c in prog.subclasses_of('Builder')]
     n = 0
     for b in builders:
         for meth in b.methods.values():
             if meth.name in ('__getattr__', '__setattr__'):
                 continue
-            for x in walk_no_nested(meth.node):
-                if isinstance(x, ast.ExceptHandler):
-                    n += 1
-                    rer = isinstance(last_stmt(x.body), ast.Raise) and last_stmt(x.body).exc is None
-                    ctx.ob('C17-R4', meth, f'except {norm(x.type) if x.type else ""} re-raises unchanged', bool(rer),
-                           're-raises' if rer else 'a rejection reason can be swallowed or replaced here',
-                           line=x.lineno)
-    ctx.ob('C17-R4', (m.relpath, 'Builder'), f'{n} exception handlers on builder methods', True,
-           'all re-raise' if n else 'none: rejections propagate unchanged', nontrivial=False)
+            if not any(isinstance(x, ast.Try) for x in walk_no_nested(meth.node)):
+                continue
+            manages = any(isinstance(x, ast.stmt) and (_is_acquire(x) or _is_release(x)) for x in walk_no_nested(meth.node))
+            fw = fly_fw if (fly_fw is not None and fly_fw.fn is meth.node) else \
+                FlightWrapper(meth.node, own, assume_acquired=not manages)
+            n += _handler_obligations(ctx, meth, fw)
+    ctx.ob('C17-R4', (m.relpath, 'Builder'), f'{n} exception handlers / finally blocks on builder methods', True,
+           'each examined on the CFG' if n else 'none: rejections propagate unchanged', nontrivial=False)
+    # positive control: a handler that annotates the exception from context-backed state and an unbound local
+    tree = ast.parse(_CONTROL_SRC)
+    for a in ast.walk(tree):
+        for ch in ast.iter_child_nodes(a):
+            if not isinstance(ch, (ast.expr_context, ast.operator, ast.unaryop, ast.cmpop, ast.boolop)):
+                ch._parent = a
+    cf = tree.body[0]
+    cfw = FlightWrapper(cf, {'CONTEXT_CLASS', 'run'})
+    h = cf.body[0].handlers[0]
+    kinds = {(txt, kind) for node, txt, kind in cfw.bad_reads_in(h)}
+    ctx.control('C17-R4', kinds == {('self.mission', 'ctx'), ('traj', 'local')} and not cfw.swallows(h),
+                'embedded handler reading self.mission / an unbound local before `raise` is recognised')
 
 
 def rule_ctx_init(ctx, m):
@@ -371,10 +1024,10 @@ def rule_ctx_init(ctx, m):
 def run(ctx):
     rule_ctx_init(ctx, ctx.prog.module(BASE))
     m = ctx.prog.module(BASE)
-    rule_pairing(ctx, m)
+    fw = rule_pairing(ctx, m)
     rule_persistent(ctx, m)
     rule_convergence(ctx, m)
-    rule_handlers(ctx, m)
+    rule_handlers(ctx, m, fw)
     # R6: an out-of-envelope state is rejected by the performance model itself (the no-extrapolation rule of C06)
     from .c06 import rule_no_extrapolation
     sub = type(ctx)(ctx.prop, ctx.prog, ctx.tier)
